@@ -209,16 +209,21 @@ def parse_races(logs):
     seen = {}
     for blk in reports:
         frames = []
+        innermost = []
         for part in re.split(r"\n\s*\n", blk):
             if not re.match(r"\s*(Read|Write|Previous read|Previous write|Atomic|Previous atomic)", part):
                 continue
             f = None
+            first = None
             for line in part.splitlines():
                 ls = line.strip()
+                if first is None and re.match(r"[\w./\-]+\.", ls) and not ls.startswith("/"):
+                    first = ls
                 if ls.startswith("github.com/basecomplextech/spec"):
                     f = re.sub(r"\(\)$", "", ls).replace("github.com/basecomplextech/spec", "")
                     break
             frames.append(f)
+            innermost.append(first or "")
         inmod = [f for f in frames if f]
         if not inmod:
             # both accesses outside the library: a race of the harness itself. It is no verdict on
@@ -226,7 +231,10 @@ def parse_races(logs):
             if "verifharness/" in blk:
                 HARNESS_RACES.append(blk[:1500])
             continue
-        key = "race:" + "|".join(sorted(set(inmod)))
+        # both racing accesses inside the dependency's lock-free map (baselibrary async/asyncmap):
+        # the library's call sites are the in-module frames, the race itself is the map's
+        where = "asyncmap:" if len(innermost) >= 2 and all("baselibrary/async/asyncmap." in x for x in innermost) else ""
+        key = "race:" + where + "|".join(sorted(set(inmod)))
         seen.setdefault(key, blk[:3000])
     return len(reports), seen
 
